@@ -643,6 +643,23 @@ def r105(facts, res):
             sl = strip_ref(t[2][0])
             if is_call(sl, 'index') and isinstance(sl[2][1], tuple) and sl[2][1][0] == 'variant' and sl[2][1][3] == 'Range':
                 return sl[2][1][4][0], sl[2][1][4][1]
+            # to_string(m.as_str()) with m = RE.find(&src[X..]) and RE anchored at the start: the text is src[X .. X + len(m.as_str())]
+            if is_call(sl, 'as_str') and 'Match' in sl[1] and sl[2]:
+                m = strip_ref(sl[2][0])
+                while isinstance(m, tuple) and m and m[0] in ('field', 'downcast'):
+                    m = m[1]
+                m = strip_ref(m)
+                if is_call(m, 'find') and 'Regex' in m[1] and len(m[2]) == 2:
+                    rx, hay = strip_ref(m[2][0]), strip_ref(m[2][1])
+                    pat = None
+                    for x in subterms(rx):
+                        if isinstance(x, tuple) and len(x) == 2 and x[0] == 'static':
+                            import progress
+                            pat = progress.Progress(facts, ['cfgrammar']).regex_of_static(x[1])
+                    if pat is not None and pat.startswith(('^', '\\A')) and is_call(hay, 'index') and isinstance(hay[2][1], tuple) and hay[2][1][0] == 'variant' \
+                            and hay[2][1][3] == 'RangeFrom':
+                        x0 = hay[2][1][4][0]
+                        return x0, ('bin', 'Add', x0, ('call', 'core::str::<impl str>::len', (t[2][0] if False else strip_ref(t[2][0]),)))
         return None
     def same(x, y):
         return (LA.lin(x) - LA.lin(y)).is_const() and (LA.lin(x) - LA.lin(y)).k == 0
